@@ -166,13 +166,19 @@ class Program:
     """All modules of the package, parsed; class table with C3 MRO."""
 
     def __init__(self, root: Path | str | None = None,
-                 overrides: dict[str, str] | None = None):
+                 overrides: dict[str, str] | None = None,
+                 normalise: bool = True):
         self.root = Path(root) if root is not None else REPO
         self.overrides = overrides or {}
         self.modules: dict[str, Module] = {}
         self.classes: dict[str, ClassInfo] = {}
         self.functions: dict[str, FuncInfo] = {}
         self._load()
+        self.norm_report: dict = {}
+        if normalise and os.environ.get("VERIF_NO_NORMALISE") != "1":
+            from .normalise import normalise_program
+            self.norm_report = normalise_program(
+                self, unroll_loops=os.environ.get("VERIF_NO_UNROLL") != "1")
 
     # -- loading ----------------------------------------------------------
     def _load(self) -> None:
@@ -347,6 +353,10 @@ class Program:
             "functions": len(self.functions),
             "classes": len(self.classes),
             "source_digest": self.digest(),
+            "helpers_inlined": [f"{h} into {c}" for c, h in
+                                self.norm_report.get("inlined", [])],
+            "functions_not_in_rule_inventory":
+                self.norm_report.get("new_functions", []),
         }
 
 
@@ -494,47 +504,14 @@ class _Rename(ast.NodeTransformer):
 
 def unroll_literal_loops(func: ast.FunctionDef) -> ast.FunctionDef:
     """Clone of func in which every ``for a, b in ((x1, y1), (x2, y2))`` over a
-    literal tuple/list is replaced by one copy of the body per row with the
-    targets substituted (so indirections through such tables disappear)."""
-    new = clone(func)
-
-    def expand(stmts):
-        out = []
-        for st in stmts:
-            for f in ("body", "orelse", "finalbody"):
-                if hasattr(st, f) and isinstance(getattr(st, f), list):
-                    setattr(st, f, expand(getattr(st, f)))
-            if isinstance(st, ast.For) and isinstance(
-                    st.iter, (ast.Tuple, ast.List)) and st.iter.elts and \
-                    not st.orelse:
-                rows = st.iter.elts
-                tgt = st.target
-                ok = True
-                copies = []
-                for row in rows:
-                    table = {}
-                    if isinstance(tgt, ast.Name):
-                        table[tgt.id] = row
-                    elif isinstance(tgt, (ast.Tuple, ast.List)) and isinstance(
-                            row, (ast.Tuple, ast.List)) and len(row.elts) == len(
-                            tgt.elts) and all(isinstance(t, ast.Name)
-                                              for t in tgt.elts):
-                        for t, r in zip(tgt.elts, row.elts):
-                            table[t.id] = r
-                    else:
-                        ok = False
-                        break
-                    body = [_Rename(table).visit(clone(b)) for b in st.body]
-                    copies.extend(body)
-                if ok:
-                    out.extend(copies)
-                    continue
-            out.append(st)
-        return out
-
-    new.body = expand(new.body)
-    ast.fix_missing_locations(new)
-    set_parents(new)
+    literal tuple/list (and ``a, b = (f(n) for n in (..))``) is replaced by one
+    copy per row with the targets substituted (so indirections through such
+    tables disappear)."""
+    from .normalise import unroll
+    new, changed = unroll(func)
+    if not changed:
+        ast.fix_missing_locations(new)
+        set_parents(new)
     return new
 
 
